@@ -159,6 +159,8 @@ theorem slice_no_bug : ∀ (ms : List Meta) (remLen start count : Nat),
     simp only [List.length_cons] at hlen
     rw [sliceCmds] at h
     split at h
+    · cases h
+    split at h
     · rename_i e hp
       simp only [Except.error.injEq] at h; subst h
       unfold slicePolicy at hp
@@ -182,6 +184,32 @@ theorem slice_no_bug : ∀ (ms : List Meta) (remLen start count : Nat),
             simp only [Except.error.injEq] at h; subst h
             exact ih _ _ _ (by omega) he
           · cases h
+
+/-- **fix (parent max cut)**: every command `get_sync_commands` returns has a parent address
+whose max cut has a successor, so the consumer (`ClientState::add_commands` →
+`CommandExt::max_cut`, `parent.max_cut + 1`) cannot overflow on peer-supplied data; a response
+carrying a parent with `max_cut = u64::MAX` is `MalformedResponse` -/
+theorem accepted_parents_have_successor (r r' : Requester) (msg : ResponseMsg) (remLen : Nat)
+    (out : List CmdOut) (h : r.getSyncCommands msg remLen = (r', .ok (some out))) :
+    ∀ c ∈ out, parentHasSuccessor c.parent = true := by
+  obtain ⟨s, idx, ms, rfl⟩ := getSync_other_no_cmds r r' msg remLen out h
+  rw [getSync_response] at h
+  repeat' split at h
+  all_goals first
+    | (simp only [Prod.mk.injEq, Except.ok.injEq, Option.some.injEq] at h
+       rename_i out' heq
+       obtain ⟨_, ho⟩ := h
+       subst ho
+       exact sliceCmds_parents ms remLen 0 0 out' heq)
+    | cases h
+
+def maxAddr : WVal := .tuple [.bytes (List.replicate 32 2), .nat (2 ^ 64 - 1)]
+example : parentHasSuccessor (.variant Prior_Single maxAddr) = false ∧
+    parentHasSuccessor (.variant Prior_Merge (.tuple [.tuple [.bytes [], .nat 5], maxAddr])) = false ∧
+    parentHasSuccessor (.variant Prior_Single (.tuple [.bytes [], .nat (2 ^ 64 - 2)])) = true ∧
+    parentHasSuccessor (.variant Prior_None (.tuple [])) = true := by decide
+example : sliceCmds [⟨[], .nat 0, .variant Prior_Single maxAddr, 0, 0⟩] 0 0 0
+    = .error .malformedResponse := by rfl
 
 /-! ## session and sequence checks -/
 
@@ -320,7 +348,7 @@ theorem responder_session_checked (p : Responder) (msg : RequestMsg) :
       p'.session = some msg.session ∧ (p.session = none ∨ p.session = some msg.session)) ∧
     (∀ s, p.session = some s → (p.dispatch msg).1.session = some s) := by
   cases p with
-  | mk sess gs st =>
+  | mk sess gs st mi =>
     refine ⟨?_, ?_, ?_⟩
     · intro s hs hne
       simp only at hs
@@ -356,6 +384,8 @@ theorem slice_err_class : ∀ (ms : List Meta) (remLen start count : Nat) (e : S
   | cons m ms ih =>
     intro remLen start count e h hb
     rw [sliceCmds] at h
+    split at h
+    · simp only [Except.error.injEq] at h; exact h.symm
     split at h
     · rename_i e' hp
       simp only [Except.error.injEq] at h; subst h
@@ -436,12 +466,53 @@ theorem poll_total (r : Requester) :
   | mk s g st mb nx =>
     cases st <;> simp [Requester.ready, Requester.poll]
 
-theorem responder_poll_total (p : Responder) :
-    (p.ready = false → p.poll = (p, .error .notReady)) ∧
-    (p.state = .start → p.graphSet = true → p.poll = ({ p with state := .reset }, .error .noSuchStorage)) := by
+theorem responder_poll_total (p : Responder) (world : Option Bytes) (more : Bool) :
+    (p.ready = false → p.poll world more = (p, .error .notReady)) ∧
+    (∀ g, p.state = .start → p.graph = some g → world ≠ some g →
+      p.poll world more = ({ p with state := .reset }, .error .noSuchStorage)) := by
   cases p with
-  | mk s g st =>
+  | mk s g st mi =>
     cases st <;> simp [Responder.ready, Responder.poll]
+    intro g' hg hw
+    subst hg
+    simp [hw]
+
+/-- whatever storage contributes (`world`, `more`), a `SyncResponse` written by the responder
+carries the responder's bound session id and its current message index, which then advances by
+exactly one; no other outcome of `poll` changes the index or the session -/
+theorem responder_response_header (p p' : Responder) (world : Option Bytes) (more : Bool) :
+    (∀ s i, p.poll world more = (p', .ok (.response s i)) →
+      p.session = some s ∧ i = p.msgIndex ∧ p'.msgIndex = p.msgIndex + 1 ∧ p'.session = p.session) ∧
+    ((p.poll world more).1.session = p.session) ∧
+    (p.msgIndex ≤ (p.poll world more).1.msgIndex ∧ (p.poll world more).1.msgIndex ≤ p.msgIndex + 1) := by
+  cases p with
+  | mk sess g st mi =>
+    refine ⟨?_, ?_, ?_⟩
+    · intro s i h
+      cases st <;> cases sess <;> cases g <;> cases more <;>
+        simp [Responder.poll, Responder.getNext] at h <;>
+        (try (split at h <;> simp at h)) <;>
+        (try (obtain ⟨h1, h2, h3⟩ := h; subst h1; subst h2; subst h3; simp))
+    · cases st <;> cases sess <;> cases g <;> cases more <;>
+        simp [Responder.poll, Responder.getNext] <;> (try split) <;> simp
+    · cases st <;> cases sess <;> cases g <;> cases more <;>
+        simp [Responder.poll, Responder.getNext] <;> (try split) <;> simp
+
+/-- `push` likewise: a pushed `SyncResponse` carries the bound session and the current index -/
+theorem responder_push_header (p p' : Responder) (world : Option Bytes) (nonempty : Bool)
+    (s i : Nat) (h : p.push world nonempty = (p', .ok (.push s i))) :
+    p.session = some s ∧ i = p.msgIndex ∧ p'.msgIndex = p.msgIndex + 1 ∧ p.graph = world := by
+  cases p with
+  | mk sess g st mi =>
+    cases g with
+    | none => simp [Responder.push] at h
+    | some g =>
+      by_cases hw : world = some g
+      · subst hw
+        cases nonempty <;> cases sess <;> simp [Responder.push] at h
+        obtain ⟨h1, h2, h3⟩ := h
+        subst h1; subst h2; subst h3; simp
+      · simp [Responder.push, hw] at h
 
 /-! ## the model-only `shape` outcome is unreachable -/
 
